@@ -115,6 +115,7 @@ class Conn:
         self.tr = None
         self.closed = False
         self.inbuf = bytearray()
+        self.stalled = False  # a reply was lost: nothing more is delivered to the client on this connection
         self.busy = False  # a response is being withheld: Kafka reads one request at a time per connection
         self.ctx = {}  # server-side per-connection state
 
@@ -224,6 +225,8 @@ class Net:
                 continue
             seen.add(k)
             if e.kind == "req" and e.conn.busy:
+                continue
+            if e.kind == "resp" and e.conn.stalled:
                 continue
             out.append(e)
         return out
